@@ -1186,7 +1186,13 @@ func genWorld(r *Rand, cfg GenCfg) Plan {
 	mkCheck := func() *CheckSpec {
 		ck := &CheckSpec{Inv: c.inv.Label, Variants: vlabels}
 		if faulty && r.Chance(0.2) && len(c.inv.Prf) > 0 {
-			ck.LFaults = []LoaderFault{{Call: r.Intn(len(c.inv.Prf)), Kind: Pick(r, []string{"notfound", "error", "notfound", "error", "nilnil", "panic"})}}
+			kinds := []string{"notfound", "error"}
+			if focus == "C01" {
+				// (faults outside the Loader contract only where principals are the subject: a library
+				// that calls the loader from a goroutine of its own turns them into a process crash)
+				kinds = []string{"notfound", "error", "notfound", "error", "nilnil", "panic"}
+			}
+			ck.LFaults = []LoaderFault{{Call: r.Intn(len(c.inv.Prf)), Kind: Pick(r, kinds)}}
 			if r.Chance(0.35) && len(dl) > 0 {
 				ck.LFaults[0].Kind, ck.LFaults[0].With = "swap", dl[r.Intn(len(dl))]
 			}
@@ -1207,7 +1213,7 @@ func genWorld(r *Rand, cfg GenCfg) Plan {
 			ph = 0.5
 		}
 		if r.Chance(ph) || spot == "hook-twice" || spot == "hook-null" {
-			ck.Hook = Pick(r, []string{"identity", "add", "add-include", "remove", "replace", "fail"})
+			ck.Hook = Pick(r, []string{"identity", "add", "add-include", "remove", "replace", "fail", "nil"})
 			switch spot {
 			case "hook-twice":
 				ck.Hook = Pick(r, []string{"add", "add-include"})
